@@ -252,12 +252,18 @@ PROPS["C01"] = {
             "0..40 (1 case in 40: 0..1500) numbered messages each in two phases, initial inbox size from {1,2,3,4,5,8,16,64,1024}; the receiver blocks at two generated message counts until "
             "the current phase is completely sent, so the inbox grows, wraps and splits its backlog behind it.  After a final marker (sent after every sender returned) the log must hold, "
             "per sender, exactly its messages 0..n-1 in order with exactly its sender PID (nil stays nil), and nothing else.  Non-trivial = >=2 concurrent senders and the backlog behind "
-            "the blocked receiver exceeded the initial inbox size (the ring grew).",
-    "technique": "property-based testing (rapid) of generated sender populations and inbox geometries on the real engine; per-sender sequence oracle",
-    "level_text": "Generated-input search; interleavings of the senders are sampled by the runtime, inbox geometry (size, backlog, wrap) is generated.",
-    "level_note": "the schedule is not owned in this leg; the ring buffer's own index arithmetic is covered exhaustively for short sequences by C14",
-    "assumptions": ENG_ASSUME,
-    "legs": [rapid("deliver", "eng", "TestDelivery", 1500, 30000, shards=(2, 12))],
+            "the blocked receiver exceeded the initial inbox size (the ring grew).  "
+            "Schedule-owning legs (vsched, inbox level): 1..3 sender threads pushing 1..3 numbered messages each into a real Inbox of initial size 1..4 while Start races with them, under generated "
+            "schedules and under every schedule with <= 2 (thorough 3) preemptions of 6 configurations: what Invoke receives contains nothing that was not pushed, nothing twice, and every sender's "
+            "messages in its own order (the ring grows and wraps under interleaved pushes and batch pops).",
+    "technique": "property-based testing (rapid) of generated sender populations and inbox geometries on the real engine; per-sender sequence oracle; schedule-owning legs (generated + preemption-bounded schedules) at the inbox",
+    "level_text": "Generated-input search; interleavings of the senders are sampled by the runtime in the engine leg and owned (generated / enumerated with a preemption bound) in the inbox legs; inbox geometry (size, backlog, wrap) is generated.",
+    "level_note": "the ring buffer's own index arithmetic is covered exhaustively for short sequences by C14",
+    "assumptions": ENG_ASSUME + ["schedule-owning legs: see C02 (rewritten package actor, one managed thread at a time)"],
+    "uses_vsched": True,
+    "legs": [rapid("deliver", "eng", "TestDelivery", 1500, 30000, shards=(2, 12)),
+             rapid("rand", "sched", "TestDeliveryRandom", 20000, 300000, shards=(2, 12), flavour="sched"),
+             plain("dfs", "sched", "TestDeliveryDFS", flavour="sched")],
 }
 
 PROPS["C10"] = {
